@@ -29,6 +29,7 @@ func main() {
 		Assumptions:     []string{"in-memory store; FUSE node driven in process through go-fuse's bridge", "cache 'resized' means truncated shorter or extended by the filesystem (zeros), never filled with foreign data"},
 		Cases:           cases,
 		Run:             run,
+		SpinIsViolation: true,
 		MinNonTrivial:   20,
 		RaceIsViolation: true,
 		CaseTimeout:     60 * time.Second,
